@@ -214,4 +214,5 @@ def run(ctx):
     ctx.section(c02._optional, ctx, index)
     ctx.section(c02._falsy, ctx, index)
     ctx.section(c10._memoised, ctx)
+    ctx.section(c02._escape, ctx, index)
 
